@@ -12,6 +12,7 @@ CONSTANTS
   MaxOps = 0
   AllowRemove = TRUE
   Interval = 0
+  Interval2 = 0
   NC = 1
   MainRes = {"void"}
   MainVia = {"direct"}
